@@ -8,8 +8,6 @@ import (
 	"encoding/json"
 	"fmt"
 	"hash/fnv"
-	"math/rand"
-	"os"
 	"regexp"
 	"sort"
 	"strings"
@@ -124,9 +122,6 @@ func (a *asker) Flush() error {
 	}
 	for _, k := range verKeys {
 		qs = append(qs, ref.Q("j:verinfo", jsonStr(k)))
-	}
-	if os.Getenv("C08_DEBUG") != "" {
-		fmt.Fprintln(os.Stderr, "flush", len(satKeys), len(verKeys))
 	}
 	ans, err := ref.Py.Batch(qs)
 	if err != nil {
@@ -380,7 +375,23 @@ func check(c Case, res resolved, a *asker, dropped map[string]bool) (v verdict) 
 			continue
 		}
 		claimed := make([]bool, len(out[i]))
+		perPkg := map[string]int{}
 		for _, q := range rec.Reqs {
+			perPkg[q.Name]++
+		}
+		for _, q := range rec.Reqs {
+			if perPkg[q.Name] > 1 || q.Name == rec.Name {
+				// Outside the quantifier (stored cases only): several
+				// requirements of one version on one package, or a
+				// requirement of a package on itself.
+				feat("requirement-outside-quantifier")
+				for k, e := range out[i] {
+					if g.Nodes[e.To].Version.Name == q.Name {
+						claimed[k] = true
+					}
+				}
+				continue
+			}
 			truth, sure := true, true
 			if q.Environment != "" {
 				tt, ok := known[q.Environment]
@@ -887,6 +898,7 @@ func (rn *runner) batch(us []*uni.Universe, witness []Case) {
 		c   Case
 		res resolved
 		key string
+		gen bool
 	}
 	var items []item
 	for _, u := range us {
@@ -894,7 +906,7 @@ func (rn *runner) batch(us []*uni.Universe, witness []Case) {
 		h := uhash(u)
 		for _, rt := range u.Roots() {
 			c := Case{Universe: u, Root: Root{rt.Name, rt.Version}}
-			items = append(items, item{c: c, res: run(c, w), key: h + "/" + rt.Name + "@" + rt.Version})
+			items = append(items, item{c: c, res: run(c, w), key: h + "/" + rt.Name + "@" + rt.Version, gen: true})
 		}
 	}
 	for _, c := range witness {
@@ -921,13 +933,19 @@ func (rn *runner) batch(us []*uni.Universe, witness []Case) {
 		}
 		r.Count("resolutions", 1)
 		r.Count("client_calls", it.res.calls)
+		if it.gen {
+			r.Count("generated:resolutions", 1)
+			if v.skipped == "" {
+				r.Count("generated:error_free", 1)
+			}
+			if v.nontrivial {
+				r.Count("generated:nontrivial", 1)
+			}
+		}
 		if v.skipped != "" {
 			r.Count("skipped:"+v.skipped, 1)
 			if v.skipped == "graph-error" {
 				r.Count("graph-error:"+firstWords(strings.ReplaceAll(it.res.g.Error, "resolution impossible:", ""), 2), 1)
-				if os.Getenv("C08_DEBUG") != "" {
-					fmt.Fprintln(os.Stderr, "GERR", it.c.Root.Name, strings.ReplaceAll(it.res.g.Error, "\n", " | "))
-				}
 			}
 			if v.skipped == "go-error" && it.res.err != nil {
 				r.Count("go-error:"+firstWords(it.res.err.Error(), 3), 1)
@@ -1008,14 +1026,14 @@ var selftest = [][2]string{
 
 func Run(r *ev.Run, replay string) {
 	r.MaxSamples = 6
-	r.Rule = "generated PyPI universes (3-7 packages x 1-4 versions, finals and pre/dev releases, 0-3 requirements per version with at most one per target package, specifiers of every PEP 440 operator, markers from a table whose truth value in the library's fixed environment is known by construction and confirmed by a start-up probe, requested extras x/y); every version of every universe is resolved as root through uni.Resolve under the universe's step budget. For a graph without graph-level error: P1 one node per package and node 0 = root, P2 every requirement of a selected version whose marker is true (under the extras on the version's in-edges) has an out-edge labelled with its specifier to the selected version of its package, P3 every edge's target satisfies the specifier for packaging (prereleases=True) and a pre/dev target other than the root is justified (an in-edge specifier names a pre/dev release, or no final release of the universe satisfies all in-edge specifiers), P4 no edge for a requirement whose marker is false, P5 every node reachable from node 0. Non-trivial = error-free resolution in which some selected version is lower than the highest version its own in-edge specifiers admit (the greedy highest-of-everything assignment is not the answer)."
+	r.Rule = "generated PyPI universes (4-7 packages a..g x 1-5 versions, finals M.m and pre/dev releases; every package has 1-3 target packages, mostly later in the alphabet, and each of its versions requires most of them with its own specifier, at most one requirement per (version, package), none on the package itself; specifiers of every PEP 440 operator incl. wildcards, compound clauses and literals naming pre/dev releases; markers from a table over python_version/python_full_version/sys_platform/os_name/extra whose truth value in the library's fixed environment is known by construction and confirmed by a start-up probe; extras x/y requested on a quarter of the requirements). Every version of every universe is resolved as root through uni.Resolve under the universe's step budget. For a graph without graph-level error: P1 node 0 is the root, one node per package, every node a version of the universe; P2 every requirement of a selected version whose marker is true (under the extras on the version's in-edges) has an out-edge labelled with its specifier to the selected version of its package; P3 every edge's target satisfies the edge's specifier for packaging (prereleases=True), and a pre/dev target other than the root is justified: a requirement on its package names a pre/dev release, or no final release of the universe satisfies all requirements on it; P4 no out-edge for a requirement whose marker is false; P5 every node reachable from node 0. Non-trivial = error-free resolution in which some selected version is lower than the highest version its own in-edge specifiers admit (the greedy highest-of-everything assignment is not the answer)."
 	r.Assumptions = []string{
-		"pip's vendored packaging (SpecifierSet.contains, Version.is_prerelease) is the reference for specifier satisfaction; trusted after self-test",
-		"marker truth values are fixed by construction and confirmed against the library at start-up (marker semantics are C16's business); templates the library evaluates differently are dropped and listed",
-		"P3 states necessary conditions only (a specifier naming a pre/dev release with any operator justifies a prerelease), so a correct implementation of pip's rule cannot be flagged",
-		"at most one requirement per (dependent version, package) and no requirement of a package on itself (the quantifier)",
-		"resolutions that end in a Go error or a graph-level error are counted and skipped; one LocalClient and one resolver per universe, shared by the resolutions of all its roots (cross-resolution purity is C05's business); a violation is re-judged with a fresh client and resolver before it is reported",
-		"an out-edge that stands for no requirement of the selected source version (stale criterion information whose parent package is selected at another version) is counted as feature:edge-without-requirement, not judged: P1-P5 do not speak about it",
+		"pip's vendored packaging (SpecifierSet.contains, Version.is_prerelease, Version.release) is the reference for specifier satisfaction and for what a pre/dev release is; trusted after self-test",
+		"marker truth values are fixed by construction and confirmed against the library at start-up by resolving r -> p[extras] -> (marker) q; a template over environment variables that the library evaluates differently is dropped and listed (marker semantics are C16's business); the bare atoms extra == \"x\" / extra == \"y\" are never dropped, because handing the requested extras to the marker is the resolver's own job: their probe universes are judged like any other case",
+		"P3 states necessary conditions only. A specifier naming a pre/dev release with any operator counts as justification. The requirements considered for the justification are the in-edges plus the requirements of every version whose requirements the resolver fetched during the resolution: pip at the modelled release (resolvelib 0.7) never withdraws a requirement merged into a criterion, so the requirement of an abandoned candidate may legitimately take part in a choice (util/resolve/pypi/testdata drop-requirements pins that behaviour)",
+		"at most one requirement per (dependent version, package) and no requirement of a package on itself (the quantifier); stored cases that break this are not judged on P2/P4 for those requirements",
+		"resolutions that end in a Go error or a graph-level error are counted and skipped; one LocalClient and one resolver per universe, shared by the resolutions of all its roots (cross-resolution purity is C05's business); a violation is shrunk and re-judged with a fresh client and resolver before it is reported",
+		"the statement does not speak about which of several consistent solutions is returned: preference for the highest version is only observed (feature:higher-admissible-final-never-tried), as are out-edges that stand for no requirement of the selected source version (feature:edge-without-requirement)",
 	}
 	if _, err := ref.Py.SelfTest(selftest); err != nil {
 		r.Inconclusive(err.Error())
@@ -1095,10 +1113,10 @@ func Run(r *ev.Run, replay string) {
 	}
 	wg.Wait()
 
-	total := r.Counter("resolutions") - r.Counter("witness_cases")
-	free := r.Counter("error_free")
+	total := r.Counter("generated:resolutions")
+	free := r.Counter("generated:error_free")
 	if free > 0 {
-		r.Count("pct_nontrivial_of_error_free", 100*r.Counter("nontrivial")/free)
+		r.Count("pct_nontrivial_of_error_free", 100*r.Counter("generated:nontrivial")/free)
 	}
 	if total > 0 {
 		pct := 100 * (total - free) / total
@@ -1109,11 +1127,9 @@ func Run(r *ev.Run, replay string) {
 	}
 	r.Gate("pct_nontrivial_of_error_free", 15)
 	r.GateNontrivial(int64(r.N(300, 30000)))
-	r.Gate("error_free", int64(r.N(2000, 200000)))
+	r.Gate("generated:error_free", int64(r.N(2000, 200000)))
 	for _, f := range []string{"extras-requested", "marker-plain-true", "marker-plain-false", "marker-extra-true", "marker-extra-false", "cycle-through-root", "prerelease-selected:named", "abandoned-candidate"} {
 		r.Gate("feature:"+f, int64(r.N(20, 2000)))
 	}
 	r.Gate("templates_kept", 12)
 }
-
-var _ = rand.New
